@@ -38,7 +38,7 @@ CHECKS = {
   design="DESIGN.md §6 C05, §13.2"),
  "C06": dict(
   category="model_checking",
-  text="MCFront.cfg explores every interleaving of sends, window outcomes, Class C receptions and a radio fault at every call position of the async procedure over a scaled counter space (including exhaustion): counters handed to the radio strictly increase; MCFrontReal.cfg repeats it with the REAL constants from start counters 0, 0xFFFE and 2^32-4 .. 2^32-2 (a few accepted downlinks). Trace validation: the enumerated async procedures (send|join x RX1 x RX2 outcome x fault position 0..9, followed by a second procedure, with/without Class C) and the nb state machine under free-form event sequences; histories with radio faults injected at random call positions on both front-ends; every transmitted uplink is decoded by Codec.tla (MIC under the full 32-bit counter, low half on the wire) and the counter after every call must equal Mac.tla's (consumed also when the procedure aborts after a successful tx).",
+  text="MCFront.cfg explores every interleaving of sends, window outcomes, Class C receptions and a radio fault at every call position of the async procedure over a scaled counter space (including exhaustion): counters handed to the radio strictly increase; MCFrontReal.cfg repeats it with the REAL constants from start counters 0, 0xFFFE and 2^32-4 .. 2^32-2 (a few accepted downlinks). Trace validation: the enumerated async procedures (send|join x RX1 x RX2 outcome x fault position 0..9, followed by a second procedure, with/without Class C) and the nb state machine under free-form event sequences; histories with radio faults injected at random call positions on both front-ends; every transmitted uplink is decoded by Codec.tla (MIC under the full 32-bit counter, low half on the wire) and the counter after every call must equal Mac.tla's (consumed also when the procedure aborts after a successful tx). The nb front-end has its own design-level model, MCNb.tla: the four-state machine driven by every event the API allows in any order (incl. a radio that answers Txing and then fails, and set_datarate between a transmission and its windows) with the counter invariants checked by TLC; TLC prints one event sequence per transition of that model and each is executed on the real nb device and judged by MacTrace.tla.",
   note='Trusted: Mac.tla (intended MAC behaviour, DESIGN Appendix B), Regions.tla (regional tables; disputed entries take the laxer reading), Codec.tla/Aes.tla/Cmac.tla (decide authenticity of every delivered frame and decode every uplink), TLC, the scripted radios/timer/RNG of the harness (no oracle logic). Histories are seeded-random (VERIF_SEED), not exhaustive; the exhaustive part is the named MC config over scaled-down constants.',
   technique="explicit TLA+ specification (Mac.tla, Regions.tla, Codec.tla) checked with TLC: " + 'MCFront.cfg + MacTrace.tla' + "; implementation traces validated against it",
   design="DESIGN.md §6 C06"),
